@@ -255,6 +255,39 @@ func levelsGen(r *rand.Rand, n int, small bool) []Case {
 			tags["many-tables-recover"] = true
 			steps = 1 + r.Intn(3)
 		}
+		if c%8 == 2 {
+			// deep levels with a tombstone at a table boundary: table A ends with the tombstone k@2, table B starts with
+			// the older k@1 (their key ranges do not overlap), small tables with keys below "a" push both down level by
+			// level (capacity 1 per level); wherever A ends up, k stays deleted for every read at or above 2
+			users = []string{"k", "a", "z"}
+			low = 2 + r.Intn(5)
+			ops[0] = fmt.Sprintf("lm 1 1 %d %d", []int{1, 20, 200}[r.Intn(3)], low)
+			crafted := []string{
+				"flush " + sortedEntries([][2]any{{"a", 5}, {"k", 2}}),
+				"flush " + sortedEntries([][2]any{{"k", 1}, {"z", 1}}),
+			}
+			if r.Intn(2) == 0 {
+				crafted[0], crafted[1] = crafted[1], crafted[0]
+			}
+			pushers := []string{"0", "1", "2", "3", "4", "5", "6", "7", "8", "9"}
+			ci := 0
+			for i := 0; i < 12+r.Intn(6); i++ {
+				if ci < 2 && (r.Intn(3) == 0 || i > 5) {
+					ops = append(ops, crafted[ci])
+					ci++
+				} else {
+					ops = append(ops, "flush "+sortedEntries([][2]any{{pushers[r.Intn(len(pushers))], 3 + i}}))
+				}
+				if r.Intn(3) > 0 {
+					ops = append(ops, "compact")
+				}
+			}
+			maxTs = 8
+			ops = append(ops, "compact")
+			queries()
+			tags["deep-levels-boundary-tombstone"] = true
+			steps = 0
+		}
 		for s := 0; s < steps; s++ {
 			switch x := r.Intn(10); {
 			case x < 6:
